@@ -4,10 +4,10 @@ Every entry changes bytes that reach a reader (or makes reads of a successfully 
 breaks that merely turn an operation into an errback are not C09 breaks (the statement only speaks
 about reads after successful operations) and are listed at the bottom as documentation.
 
-NOTE: on the tree as of this writing C09 already reports the genuine key
-`mdmf-update-uses-stale-cached-node-size`; judge a break as caught only when an additional key
-(wrong-bytes-*, read-fails-*, version-size-*, modifier-*) appears, or run against a copy that has the
-one-line fix (Publish.update: self.datalength = version[4]).
+NOTE: while /repo still has the genuine failing-operation classes (update-*-fails-empty-file-*,
+update-mdmf-fails-update-data-incomplete-with-several-shares-per-server) C09 exits 1 by itself; judge a
+break as caught only when an additional key appears, or run against a copy that has the two small patches
+(servermap.py: separate list for the update-data Deferreds; filenode.py _update: empty file => plain upload).
 """
 BREAKS = []
 
@@ -68,6 +68,15 @@ brk("c09-modify-publishes-old", "mutable/filenode.py",
     "                new_contents = MutableData(new_contents)\n",
     "                new_contents = MutableData(old_contents)\n",
     "modify() publishes the old contents")
+# the two defects repaired by fix: commits 0eb4d1b and 1699424, re-planted
+brk("c09-replant-stale-node-size", "mutable/publish.py",
+    "        self.datalength = version[4]\n",
+    "        self.datalength = self._node.get_size()\n",
+    "Publish.update sizes the new version from the node's cached size")
+brk("c09-replant-append-at-aligned-eof", "mutable/filenode.py",
+    "        if offset == self.get_size() and offset % segsize == 0 and start_segment > 0:",
+    "        if False:",
+    "append at EOF of a file whose size is a multiple of the segment size asks for a segment that does not exist")
 
 # Documentation (not content breaks, not in BREAKS):
 #  * SDMF IV reuse across versions (publish.py _encode_segment `salt = os.urandom(16)` -> constant): no delivered byte
